@@ -731,6 +731,13 @@ func umax(t *Term) uint64 {
 		return m
 	case OpExtract:
 		return mask(t.sort.Bits)
+	case OpAdd:
+		a, b := umax(t.args[0]), umax(t.args[1])
+		if s := a + b; s >= a && s <= mask(t.sort.Bits) {
+			return s
+		}
+	case OpConcat:
+		return umax(t.args[0])<<uint(t.args[1].sort.Bits) | umax(t.args[1])
 	case OpLShr:
 		if t.args[1].op == OpConst && t.args[1].val < 64 {
 			return umax(t.args[0]) >> t.args[1].val
